@@ -8,6 +8,7 @@ import (
 	"fmt"
 	"math/big"
 	"reflect"
+	"runtime"
 	"strings"
 	"testing"
 
@@ -79,12 +80,18 @@ func evalC10(c c10Case) (*Failure, c10Result) {
 	for i, fr := range c.Frames {
 		finishedBefore := len(decoders)
 		var err error
+		var before, after runtime.MemStats
+		runtime.ReadMemStats(&before)
 		msg, stack := catchPanic(func() {
 			err = p.Add(fr, func(h *parser.PacketHeader, ev string, d parser.Decode) {
 				decoders = append(decoders, d)
 				headers = append(headers, h)
 			})
 		})
+		runtime.ReadMemStats(&after)
+		if grown := int64(after.TotalAlloc - before.TotalAlloc); msg == "" && grown > int64(len(fr))*64+(1<<20) {
+			return fail("alloc-bound", fmt.Sprintf("Add(frame %d = %q, %d bytes) allocated %d bytes: a count declared by the peer drives the allocation", i, trunc(fr, 60), len(fr), grown)), res
+		}
 		if msg != "" {
 			f := fail("no-panic", fmt.Sprintf("Add(frame %d = %q) panicked: %s", i, trunc(fr, 80), msg))
 			f.Stack = stack
@@ -226,7 +233,7 @@ func TestC10_ExhaustiveSmall(t *testing.T) {
 
 // ---- (2) grammar-aware mutation of valid packets -------------------------------------------------------------------------
 
-var c10HostileCounts = []string{"0", "1", "2", "18446744073709551615", "9223372036854775808", "9223372036854775807", "4294967296", "99999999999999999999999", "-1", "x", "", "1e3", "01", " 1", "+1"}
+var c10HostileCounts = []string{"0", "1", "2", "50000000", "1000000", "18446744073709551615", "9223372036854775808", "9223372036854775807", "4294967296", "99999999999999999999999", "-1", "x", "", "1e3", "01", " 1", "+1"}
 
 var c10HostileNums = []string{"-1", "-2", "-5", "1", "2", "99", "2147483648", "4294967295", "9223372036854775807", "1e300", "-1e300", "1.5", "\"x\"", "null", "true", "[]", "{}", "-0", "0.999", "1e-9"}
 
